@@ -574,3 +574,161 @@ Section InjectProof.
         (apply (core_ok fuel IH t v td El); [rewrite Ek; discriminate| | | | |]; auto; rewrite Ek; auto).
   Qed.
 End InjectProof.
+
+(* ------------------------------------------------------------------ the pipeline with default injection *)
+Section PipelineShaped.
+  Variable S : schema.
+  Variable reparse : bytes -> option json.
+  Let q := go_quirks.
+  Let d := weak_strict.
+
+  Hypothesis Hfields : fields_nodup S = true.
+  Hypothesis Hdefs : field_defaults_ok d S = true.
+  Hypothesis Honeof : oneof_no_defaults S = true.
+
+  (* the value of a variable after list coercion and default extraction is well-shaped *)
+  Definition var_shaped (ms : list (bytes * json)) (vd : vardef) : bool :=
+    match norm_value q S vd ms with
+    | None => true
+    | Some u => is_scalar_or_enum S (vd_type vd) || entry S u (vd_type vd)
+    end.
+
+  Lemma norm_value_ext : forall vd ms ms', obj_get (vd_name vd) ms = obj_get (vd_name vd) ms' ->
+                                           norm_value q S vd ms = norm_value q S vd ms'.
+  Proof. intros. unfold norm_value. rewrite H. reflexivity. Qed.
+
+  Definition var_result (ms ms3 : list (bytes * json)) (vd : vardef) : Prop :=
+    match norm_value q S vd ms with
+    | None => obj_get (vd_name vd) ms3 = None
+    | Some u => exists nv, obj_get (vd_name vd) ms3 = Some nv
+                           /\ coercible_j d S nv (vd_type vd) = coercible_j d S u (vd_type vd)
+    end.
+
+  Lemma norm_var_ok : forall vd ms,
+      var_default_ok q S d vd = true -> json_nodup (JObj ms) = true -> var_shaped ms vd = true ->
+      match norm_var q S reparse vd ms with
+      | NOk ms3 => json_nodup (JObj ms3) = true
+                   /\ (forall k, k <> vd_name vd -> obj_get k ms3 = obj_get k ms)
+                   /\ var_result ms ms3 vd
+      | NFuel => True
+      | _ => False
+      end.
+  Proof.
+    intros vd ms Hd Hn Hsh.
+    pose proof (norm_var_ni_nodup q S d vd ms Hd Hn) as Hn2.
+    pose proof (norm_var_ni_same q S vd ms) as Hsame.
+    pose proof (norm_var_ni_other q S vd ms) as Hother.
+    unfold norm_var. fold (norm_var_ni q S vd ms).
+    change (extract_default q vd
+              match obj_get (vd_name vd) ms with
+              | Some v => set_member (vd_name vd) (coerce_j S v (vd_type vd)) ms
+              | None => ms
+              end) with (norm_var_ni q S vd ms).
+    set (ms2 := norm_var_ni q S vd ms) in *.
+    unfold var_shaped in Hsh. unfold var_result.
+    rewrite Hsame. destruct (norm_value q S vd ms) as [u|] eqn:Enu.
+    2:{ repeat split; auto. }
+    assert (Hnu : json_nodup u = true).
+    { rewrite json_nodup_obj in Hn2. apply andb_true_iff in Hn2. destruct Hn2 as [_ Hv]. rewrite forallb_forall in Hv.
+      destruct (obj_get_in _ _ _ Hsame) as [k' [_ Hin]]. apply (Hv (k', u)). auto. }
+    destruct (is_scalar_or_enum S (vd_type vd)) eqn:Esc.
+    { repeat split; auto. exists u. auto. }
+    simpl in Hsh.
+    pose proof (inject_ok d S reparse Hfields Hdefs Honeof (inject_budget S u) (vd_type vd) u Hsh Hnu) as Hg.
+    fold q in Hg.
+    destruct (inject q S reparse (inject_budget S u) (vd_type vd) u) as [nv rep| | |]; simpl in Hg; try contradiction; auto.
+    destruct Hg as [Hc [Hnn _]].
+    destruct rep.
+    - repeat split.
+      + rewrite json_nodup_obj in *. apply andb_true_iff in Hn2. destruct Hn2 as [Hk Hv].
+        apply andb_true_iff. split.
+        * rewrite keys_set_member_present; auto. eapply obj_get_some_key; eauto.
+        * apply forallb_set_member; auto.
+      + intros k Hk. rewrite obj_get_set_member_other by auto. apply Hother. auto.
+      + exists nv. split; auto. apply obj_get_set_member_same.
+    - repeat split; auto. exists u. auto.
+  Qed.
+
+  Lemma normalise_ok : forall vds ms,
+      NoDup (map vd_name vds) ->
+      forallb (var_default_ok q S d) vds = true -> json_nodup (JObj ms) = true ->
+      forallb (var_shaped ms) vds = true ->
+      match normalise q S reparse vds ms with
+      | NOk ms' => json_nodup (JObj ms') = true
+                   /\ (forall k, ~ In k (map vd_name vds) -> obj_get k ms' = obj_get k ms)
+                   /\ (forall vd, In vd vds -> var_result ms ms' vd)
+      | NFuel => True
+      | _ => False
+      end.
+  Proof.
+    induction vds as [|vd r IH]; intros ms Hnd Hd Hn Hsh; simpl.
+    - repeat split; auto. intros vd [].
+    - simpl in Hd, Hsh. apply andb_true_iff in Hd. destruct Hd as [Hd1 Hd2].
+      apply andb_true_iff in Hsh. destruct Hsh as [Hs1 Hs2]. inversion Hnd; subst.
+      pose proof (norm_var_ok vd ms Hd1 Hn Hs1) as H1.
+      destruct (norm_var q S reparse vd ms) as [ms3| | |]; try contradiction; auto.
+      destruct H1 as [Hn3 [Hoth Hres]].
+      assert (Hs3 : forallb (var_shaped ms3) r = true).
+      { rewrite forallb_forall in *. intros v Hv. specialize (Hs2 v Hv). unfold var_shaped in *.
+        rewrite (norm_value_ext v ms3 ms); auto. apply Hoth. intros E. apply H1. rewrite <- E. apply in_map. auto. }
+      specialize (IH ms3 H2 Hd2 Hn3 Hs3).
+      destruct (normalise q S reparse r ms3) as [ms'| | |]; try contradiction; auto.
+      destruct IH as [Hn' [Hoth' Hres']]. repeat split; auto.
+      + intros k Hk. rewrite Hoth' by (intros Hin; apply Hk; right; auto). apply Hoth. intros E. apply Hk. left. auto.
+      + intros v [<-|Hv].
+        * unfold var_result in *. rewrite Hoth' by auto. exact Hres.
+        * specialize (Hres' v Hv). unfold var_result in *.
+          rewrite (norm_value_ext v ms ms3).
+          -- exact Hres'.
+          -- symmetry. apply Hoth. intros E. apply H1. rewrite <- E. apply in_map. auto.
+  Qed.
+
+  (* the strict reading of what the validator will find = the full reading of the request *)
+  Lemma norm_value_coercible : forall vd ms,
+      var_default_ok q S d vd = true ->
+      coercible d S (vd_type vd) false (norm_value q S vd ms) = coercible_var weak S (JObj ms) vd.
+  Proof.
+    intros vd ms Hd. unfold coercible_var, coercible, vd_hasdef, norm_value. simpl.
+    destruct (obj_get (vd_name vd) ms) as [v|].
+    - apply (coerce_correct true true).
+    - unfold var_default_ok in Hd. destruct (vd_default vd) as [dv|]; simpl; auto.
+      apply andb_true_iff in Hd. tauto.
+  Qed.
+
+  Theorem pipeline_shaped_iff_coercible : forall vds ms,
+      json_nodup (JObj ms) = true ->
+      vars_nodup vds = true ->
+      no_upload_ref S vds = true ->
+      defaults_nullable_only S = true ->
+      forallb (var_default_ok q S d) vds = true ->
+      forallb (var_shaped ms) vds = true ->
+      normalise q S reparse vds ms <> NFuel ->
+      (accepts q S reparse vds (JObj ms) = true <-> coercible_all weak S vds (JObj ms) = true).
+  Proof.
+    intros vds ms Hj Hv HU HD Hdef Hsh Hfuel.
+    apply nodupb_NoDup in Hv.
+    pose proof (normalise_ok vds ms Hv Hdef Hj Hsh) as Hn.
+    unfold accepts, pipeline.
+    destruct (normalise q S reparse vds ms) as [ms'| | |]; try contradiction; [|congruence].
+    destruct Hn as [Hn' [_ Hres]].
+    assert (Hperm : Permutation.Permutation (remap q vds) vds) by (apply remap_perm; eapply no_upload_ref_vars; eauto).
+    assert (Hval : validate q S (remap q vds) (JObj ms') = None
+                   <-> coercible_all (dialect_of q) S (map strip_default (remap q vds)) (JObj ms') = true).
+    { apply validate_iff_coercible; auto. right. eapply no_upload_ref_perm; eauto. }
+    rewrite (coercible_all_perm (dialect_of q) S (map strip_default vds) (map strip_default (remap q vds)) (JObj ms')) in Hval
+      by (apply Permutation.Permutation_map; auto).
+    assert (Heq : coercible_all (dialect_of q) S (map strip_default vds) (JObj ms') = coercible_all weak S vds (JObj ms)).
+    { unfold coercible_all.
+      assert (Hfm : forall (f : vardef -> bool) l, forallb f (map strip_default l) = forallb (fun x => f (strip_default x)) l).
+      { induction l; simpl; auto. rewrite IHl. auto. }
+      rewrite Hfm. apply forallb_ext_in. intros vd Hin.
+      rewrite <- (norm_value_coercible vd ms) by (rewrite forallb_forall in Hdef; auto).
+      specialize (Hres vd Hin). unfold var_result in Hres.
+      unfold coercible_var, coercible, strip_default, vd_hasdef. simpl.
+      destruct (norm_value q S vd ms) as [u|].
+      - destruct Hres as [nv [-> Hc]]. exact Hc.
+      - rewrite Hres. reflexivity. }
+    rewrite Heq in Hval. rewrite <- Hval.
+    destruct (validate q S (remap q vds) (JObj ms')); split; intros; congruence.
+  Qed.
+End PipelineShaped.
